@@ -457,3 +457,16 @@ Section MeasurementAlgebra.
 End MeasurementAlgebra.
 
 Definition g_id (k : nat) : Z := Z.of_nat (S k).      (* stream 1, 2, 3, ... *)
+
+(* ------------------------------------------------ internal step times *)
+Lemma step_times_concat : forall steps pos,
+  concat (step_times pos steps) = seq pos (fold_right plus 0 steps).
+Proof.
+  induction steps as [|N r IH]; intros pos; [reflexivity|].
+  cbn [step_times concat fold_right]. rewrite IH, <- seq_app. reflexivity.
+Qed.
+
+Lemma step_times_grid_independent : forall s1 s2 pos,
+  fold_right plus 0 s1 = fold_right plus 0 s2 ->
+  concat (step_times pos s1) = concat (step_times pos s2).
+Proof. intros s1 s2 pos H. now rewrite !step_times_concat, H. Qed.
